@@ -91,51 +91,67 @@ def one(ctx, i, tmproot):
         base = {"op": OP, "truth": truth, "method": method, "via": via, "pre_states": sorted(set(pre.values())),
                 "truth_func_before": p.features.get(truth + "_func_before", False)}
         replay = {"case": i, "seed": ctx.seed, "tier": ctx.tier, "pre": pre, "files": before_src}
-        res = run_api(p) if via == "api" else run_cli(p)
-        ctx.event("sync_runs:" + via)
-        raised = (via == "api" and res["exc"] is not None) or (via == "cli" and res["rc"] != 0)
-        if raised:
-            ctx.event("runs_raised")
-        for kind, fn in p.files.items():
-            if before_src[kind] is None:
-                continue
-            tb = dict(base, file_kind=kind, file_pre=p.pre[kind], file_is_truth=kind == truth,
-                      file_func_before=p.features.get(kind + "_func_before", False),
-                      file_is_method=p.method and kind == "function",
-                      no_trailing_newline=p.features.get(kind + "_no_trailing_newline", False),
-                      file_ending=p.features.get(kind + "_ending"), run_raised=raised)
-            b_tree = ast.parse(before_src[kind])
-            b_top, b_sib, b_doc = others(b_tree, p.names[kind], DEF_NAME[kind])
-            ctx.case((truth, tuple(sorted(pre.items())), method, kind, tuple(type(s).__name__ for s in b_top)), nontrivial=bool(b_top or b_sib),
-                     sample={"file": os.path.basename(fn), "pre": p.pre[kind], "before": before_src[kind][:500]}, sample_key=(kind, p.pre[kind]))
-            ctx.feature("file_pre=" + p.pre[kind])
-            ctx.feature("file_ending=" + str(p.features.get(kind + "_ending")))
-            after_src = open(fn).read()
-            try:
-                a_tree = ast.parse(after_src)
-            except SyntaxError as e:
-                ctx.report(dict(tb, field="file", tag="does_not_parse", expected="valid python", observed=str(e)[:100]), dict(replay, after=after_src))
-                continue
-            ctx.event("files_compared")
-            a_top, a_sib, a_doc = others(a_tree, p.names[kind], DEF_NAME[kind])
-            # anything appended with the target's simple name is "the definition that was added"
-            a_top = [s for s in a_top if not (isinstance(s, (ast.FunctionDef, ast.ClassDef)) and s.name == DEF_NAME[kind]
-                                              and ast.dump(_norm(s)) not in _dumps(b_top, False))]
-            db, da = _dumps(b_top), _dumps(a_top)
-            if db != da:
-                tag = "reordered" if sorted(db) == sorted(da) else ("dropped" if len(da) < len(db) else ("added" if len(da) > len(db) else "changed"))
-                first = next((j for j, (x, y) in enumerate(zip(db, da)) if x != y), min(len(db), len(da)))
-                ctx.report(dict(tb, field="top_level_statements", tag=tag,
-                                first_diff=type(b_top[first]).__name__ if first < len(b_top) else "end",
-                                expected=ast.unparse(b_top[first])[:200] if first < len(b_top) else "<end>",
-                                observed=ast.unparse(a_top[first])[:200] if first < len(a_top) else "<end>"), dict(replay, after=after_src))
-            if b_sib:
-                sb, sa = _dumps(b_sib), _dumps([s for s in a_sib])
-                if sb != sa:
-                    ctx.report(dict(tb, field="class_siblings", tag="changed", expected=str(len(sb)), observed=str(len(sa))), dict(replay, after=after_src))
-                ctx.event("sibling_sets_compared")
-            if (b_doc or None) != (a_doc or None):
-                ctx.report(dict(tb, field="module_docstring", tag="changed", expected=repr(b_doc)[:100], observed=repr(a_doc)[:100]), dict(replay, after=after_src))
+        def sync_and_judge(before_src, base, replay, phase):
+            base = dict(base, phase=phase)
+            res = run_api(p) if via == "api" else run_cli(p)
+            ctx.event("sync_runs:" + via)
+            raised = (via == "api" and res["exc"] is not None) or (via == "cli" and res["rc"] != 0)
+            if raised:
+                ctx.event("runs_raised")
+            for kind, fn in p.files.items():
+                if before_src[kind] is None:
+                    continue
+                tb = dict(base, file_kind=kind, file_pre=p.pre[kind], file_is_truth=kind == truth,
+                          file_func_before=p.features.get(kind + "_func_before", False),
+                          file_is_method=p.method and kind == "function",
+                          no_trailing_newline=p.features.get(kind + "_no_trailing_newline", False),
+                          file_ending=p.features.get(kind + "_ending"), run_raised=raised)
+                b_tree = ast.parse(before_src[kind])
+                b_top, b_sib, b_doc = others(b_tree, p.names[kind], DEF_NAME[kind])
+                ctx.case((truth, tuple(sorted(pre.items())), method, kind, tuple(type(s).__name__ for s in b_top)), nontrivial=bool(b_top or b_sib),
+                         sample={"file": os.path.basename(fn), "pre": p.pre[kind], "before": before_src[kind][:500]}, sample_key=(kind, p.pre[kind]))
+                ctx.feature("file_pre=" + p.pre[kind])
+                ctx.feature("file_ending=" + str(p.features.get(kind + "_ending")))
+                after_src = open(fn).read()
+                try:
+                    a_tree = ast.parse(after_src)
+                except SyntaxError as e:
+                    ctx.report(dict(tb, field="file", tag="does_not_parse", expected="valid python", observed=str(e)[:100]), dict(replay, after=after_src))
+                    continue
+                ctx.event("files_compared")
+                a_top, a_sib, a_doc = others(a_tree, p.names[kind], DEF_NAME[kind])
+                # anything appended with the target's simple name is "the definition that was added"
+                a_top = [s for s in a_top if not (isinstance(s, (ast.FunctionDef, ast.ClassDef)) and s.name == DEF_NAME[kind]
+                                                  and ast.dump(_norm(s)) not in _dumps(b_top, False))]
+                db, da = _dumps(b_top), _dumps(a_top)
+                if db != da:
+                    tag = "reordered" if sorted(db) == sorted(da) else ("dropped" if len(da) < len(db) else ("added" if len(da) > len(db) else "changed"))
+                    first = next((j for j, (x, y) in enumerate(zip(db, da)) if x != y), min(len(db), len(da)))
+                    ctx.report(dict(tb, field="top_level_statements", tag=tag,
+                                    first_diff=type(b_top[first]).__name__ if first < len(b_top) else "end",
+                                    expected=ast.unparse(b_top[first])[:200] if first < len(b_top) else "<end>",
+                                    observed=ast.unparse(a_top[first])[:200] if first < len(a_top) else "<end>"), dict(replay, after=after_src))
+                if b_sib:
+                    sb, sa = _dumps(b_sib), _dumps([s for s in a_sib])
+                    if sb != sa:
+                        ctx.report(dict(tb, field="class_siblings", tag="changed", expected=str(len(sb)), observed=str(len(sa))), dict(replay, after=after_src))
+                    ctx.event("sibling_sets_compared")
+                if (b_doc or None) != (a_doc or None):
+                    ctx.report(dict(tb, field="module_docstring", tag="changed", expected=repr(b_doc)[:100], observed=repr(a_doc)[:100]), dict(replay, after=after_src))
+
+        sync_and_judge(before_src, base, replay, "first_sync")
+        if i % 3 == 0 and via == "api" and not method:
+            # the same paths again in the same process: a hand edit in every target, a changed truth, a second sync
+            for kind, fn in p.files.items():
+                if kind != truth and os.path.exists(fn):
+                    with open(fn, "a") as f:
+                        f.write("\nZQ_EDITED_BY_HAND_{} = {}\n".format(i, rng.randint(1, 99)))
+            from ..syncsim import definition_src
+            with open(p.files[truth], "w") as f:
+                f.write(definition_src(truth, p.stale_ir) + "\n")
+            before2 = {k: (open(f).read() if os.path.exists(f) else None) for k, f in p.files.items()}
+            ctx.event("second_syncs_after_hand_edit")
+            sync_and_judge(before2, base, dict(replay, second_phase_files=before2), "second_sync_after_hand_edit")
     finally:
         shutil.rmtree(root, ignore_errors=True)
 
